@@ -41,3 +41,62 @@ def vacuity(ck, mc, module, must_take):
     missing = [a for a in must_take if cov.get(a, 0) == 0]
     if missing:
         raise core.ToolError(f"vacuous model-checking run of {mc['module']}: actions never taken: {missing}")
+
+
+def split_trace(path, nchunks, boundary=lambda e: e.get("ev") in ("reset", "case", "scenario")):
+    """Split an ndjson batch into <= nchunks files at trace boundaries. Returns the chunk paths."""
+    lines = open(path).read().splitlines()
+    if nchunks <= 1 or len(lines) < 2000:
+        return [path]
+    target = len(lines) // nchunks + 1
+    chunks, cur = [], []
+    for ln in lines:
+        if len(cur) >= target and boundary(json.loads(ln)):
+            chunks.append(cur)
+            cur = []
+        cur.append(ln)
+    if cur:
+        chunks.append(cur)
+    out = []
+    for i, c in enumerate(chunks):
+        cp = f"{path}.part{i}"
+        open(cp, "w").write("\n".join(c) + "\n")
+        out.append(cp)
+    return out
+
+
+def judge_parallel(ck, trace_module, trace_file, what, module_name, describe, cfg=None, jobs=6, traces=None):
+    """judge_batch over chunks of one big batch, validated by concurrent TLC processes."""
+    from concurrent.futures import ThreadPoolExecutor
+    parts = split_trace(trace_file, jobs)
+    if len(parts) == 1:
+        return judge_batch(ck, trace_module, trace_file, what, module_name, describe, cfg=cfg, traces=traces)
+    with ThreadPoolExecutor(max_workers=jobs) as ex:
+        verdicts = list(ex.map(lambda p: core.validate_trace(trace_module, p, cfg=cfg), parts))
+    total = {"events": 0, "checked": 0, "viol": [], "drift": [], "_tlc": {"generated": 0, "distinct": 0, "wall_s": 0}}
+    for part, v in zip(parts, verdicts):
+        events = None
+        total["events"] += v.get("events", 0)
+        total["checked"] += v.get("checked", 0)
+        for k in ("generated", "distinct"):
+            total["_tlc"][k] += v["_tlc"][k]
+        total["_tlc"]["wall_s"] = max(total["_tlc"]["wall_s"], v["_tlc"]["wall_s"])
+        if v.get("viol") or v.get("drift"):
+            events = core.read_ndjson(part)
+        for (line, tag) in v.get("viol", [])[:40]:
+            hist = history_of(events, line)
+            sig, desc = describe(hist, tag)
+            ck.violation(dict(sig, module=module_name), desc, {"trace_spec": trace_module, "tag": tag, "history": hist})
+            total["viol"].append([line, tag])
+        for (line, tag) in v.get("drift", [])[:10]:
+            hist = history_of(events, line)
+            ck.drift(f"{trace_module}: event {line} ({tag}) deviates from the model's prediction: {json.dumps(hist[-1])[:300]}")
+            total["drift"].append([line, tag])
+        for k in v:
+            if k not in total and isinstance(v[k], int):
+                total[k] = total.get(k, 0) + v[k]
+    ntr = traces if traces is not None else total["events"]
+    ck.add_trace_run(trace_module, total, ntr, what + f" ({len(parts)} parallel TLC runs)")
+    for p in parts:
+        os.remove(p)
+    return total
